@@ -150,7 +150,7 @@ def lindblad_reference(L, procs, T, state_name, J=1.0, g=0.6):
 def tree_oracle(args):
     solver, order, L, procs, dt, state = args["solver"], args["order"], args["L"], args["procs"], args["dt"], args["state"]
     errs = []
-    for d in (dt, dt / 2):
+    for d in (dt, dt / 2, dt / 4):
         avg, tot, n = tree_average(solver, order, L, procs, d, 1, state)
         if abs(tot - 1.0) > 1e-8:
             return f"{solver} order {order}: the probabilities of the {n} outcome paths sum to {tot:.10f}"
@@ -160,9 +160,11 @@ def tree_oracle(args):
     if errs[0] > 4.0 * (scale * dt) ** 2 + 1e-9:
         return (f"{solver} order {order}: one-step tree average differs from the Lindblad solution by {errs[0]:.3e} at dt={dt} "
                 f"(more than 4 (rate*dt)^2 = {4 * (scale * dt) ** 2:.3e}); processes {[(p['name'], p['sites'], p['strength']) for p in procs]}")
-    if errs[0] > 1e-7 and errs[1] > errs[0] / 3.0:
-        return (f"{solver} order {order}: halving dt reduces the one-step error only from {errs[0]:.3e} to {errs[1]:.3e} (first-order "
-                f"inconsistent with the master equation); processes {[(p['name'], p['sites'], p['strength']) for p in procs]}")
+    # quadratic shrinkage: at least one of two successive halvings must reduce the error by more than a factor 2.8 (a single ratio
+    # can be spoiled by a sign change of the error on the way to the asymptotic regime; a first-order error gives ~0.5 twice)
+    if errs[0] > 1e-7 and errs[1] > 0.36 * errs[0] and errs[2] > 0.36 * errs[1]:
+        return (f"{solver} order {order}: halving dt twice reduces the one-step error only from {errs[0]:.3e} to {errs[1]:.3e} to {errs[2]:.3e} "
+                f"(first-order inconsistent with the master equation); processes {[(p['name'], p['sites'], p['strength']) for p in procs]}")
     if args.get("permute"):
         perm = list(reversed(procs))
         a1, _, _ = tree_average(solver, order, L, procs, dt, 1, state)
